@@ -287,7 +287,18 @@ func (env *Env) tr(e *Expr, expect string) TV {
 		} else {
 			b = and(append(guards, b)...)
 		}
-		if len(e.Trig) > 0 {
+		if len(e.TrigGroups) > 0 {
+			pats := ""
+			for _, grp := range e.TrigGroups {
+				var ts []string
+				for _, t := range grp {
+					tt := ce.tr(t, "")
+					ts = append(ts, tt.T)
+				}
+				pats += " :pattern (" + strings.Join(ts, " ") + ")"
+			}
+			b = "(! " + b + pats + ")"
+		} else if len(e.Trig) > 0 {
 			var ts []string
 			for _, t := range e.Trig {
 				tt := ce.tr(t, "")
